@@ -656,6 +656,19 @@ fn verify_property_collisions(
     Ok(())
 }
 
+#[cfg(feature = "verif")]
+impl RuleMetadata {
+    pub(crate) fn verif_from_filters(
+        apply_to_filters: Vec<FilterPattern>,
+        skip_filters: Vec<FilterPattern>,
+    ) -> Self {
+        Self {
+            apply_to_filters,
+            skip_filters,
+        }
+    }
+}
+
 #[cfg(test)]
 mod test {
     use super::*;
